@@ -28,9 +28,27 @@ let snapshot_text (w : world) : string =
     (vol_snapshot w O);
   Buffer.contents b
 
+(* the OS-independent view (IsoView.iso_view): paths spelled /c1/c2, link targets normalised *)
+let norm_text (w : world) : string =
+  let b = Buffer.create 256 in
+  let classes = ref [] in
+  let cls id = match List.assoc_opt id !classes with
+    | Some k -> k
+    | None -> let k = List.length !classes in classes := (id, k) :: !classes; k in
+  let path cs = if cs = [] then "/" else String.concat "" (List.map (fun c -> "/" ^ string_of_str c) cs) in
+  List.iter (fun e -> match e with
+    | NEDir p -> Buffer.add_string b (Printf.sprintf "D %s\n" (tok_of_string (path p)))
+    | NEFile (p, d, k, id) ->
+        Buffer.add_string b (Printf.sprintf "F %s %d %d %s\n" (tok_of_string (path p)) (int_of_z k) (cls (int_of_n id)) (tok_of_str d))
+    | NESym (p, t) -> Buffer.add_string b (Printf.sprintf "L %s %s\n" (tok_of_string (path p)) (tok_of_str t)))
+    (iso_view w O);
+  Buffer.contents b
+
 let show_snap mode w = match mode with
   | "none" -> ""
   | "full" -> " #" ^ String.concat ";" (String.split_on_char '\n' (snapshot_text w))
+  | "norm" -> " #" ^ Digest.to_hex (Digest.string (snapshot_text w)) ^ "/" ^ Digest.to_hex (Digest.string (norm_text w))
+  | "normfull" -> " #" ^ String.concat ";" (String.split_on_char '\n' (snapshot_text w)) ^ "/" ^ String.concat ";" (String.split_on_char '\n' (norm_text w))
   | _ -> " #" ^ Digest.to_hex (Digest.string (snapshot_text w))
 
 let parse_dirs (s : string) : (str * n) list =
@@ -89,3 +107,31 @@ let run () =
     | _ -> print_endline "BADLINE")
 
 let () = Conv.register "ostype" run
+
+(* what a freshly constructed file system reports, according to the model:
+   SetOSType modelled by OsTypeCfg.set_os_type over the REGENERATED shape (Gen_ostype.gen_setos), the host being Linux *)
+let run_info () =
+  iter_lines (fun line ->
+    match split_ws line with
+    | ["info"; fs; os; tag] ->
+        let req = if os = "windows" then OsWindows else OsLinux in
+        let feat = if tag = "tag" then feat_tag else feat_notag in
+        (match set_os_type gen_setos feat OsLinux req with
+         | SetOk (t, sep) ->
+             let osv = flavour t in
+             let w = init_world_os osv (n_of_int 18) in
+             let cwd = match w.w_views with v :: _ -> v.v_cwd | [] -> [] in
+             let volmgr = fs = "memfs" in
+             let vols = if not volmgr then [] else
+               (match volume_list w.w_fs (List.hd w.w_views) with OVols l -> l | _ -> []) in
+             let cfg = if fs = "memfs" then gen_cfg_memfs else gen_cfg_orefafs in
+             Printf.printf "type=%d sep=%d feat=%d cwd=%s vols=%s dmode=%d fmode=%d volmgr=%d\n"
+               (match t with OsUnknown -> 0 | OsLinux -> 1 | OsWindows -> 2 | OsDarwin -> 3)
+               (int_of_n sep) (if feat then 1 else 0) (tok_of_str cwd)
+               (String.concat "," (List.map tok_of_str vols))
+               (int_of_n (cfg_dir_mode cfg osv)) (int_of_n (cfg_file_mode cfg osv)) (if volmgr then 1 else 0)
+         | SetRefused -> print_endline "refused type=0 sep=0"   (* the fields keep the zero values of the Go struct *)
+         | SetUnknownShape -> print_endline "unknown-shape")
+    | _ -> print_endline "BADLINE")
+
+let () = Conv.register "ostypeinfo" run_info
